@@ -1,11 +1,27 @@
--- Root of the `PV` library (verification models, proofs and property theorems for stationeers-pytrapic).
-import PV.Base.Crc32
-import PV.Base.B64
-import PV.Base.PyExpr
-import PV.Gen.Tables
-import PV.Gen.Options
-import PV.Gen.Enums
-import PV.Gen.Intrinsics
-import PV.Gen.Structures
-import PV.Proofs.B64
+-- Root of the `PV` library (verification models, proofs and property theorems for stationeers-pytrapic):
+-- `lake build PV` checks every property theorem.
+import PV.Props.C01
+import PV.Props.C01Core
+import PV.Props.C01Strip
+import PV.Props.C02
+import PV.Props.C03
+import PV.Props.C04
+import PV.Props.C05
+import PV.Props.C06
+import PV.Props.C07
+import PV.Props.C08
+import PV.Props.C09
+import PV.Props.C10
+import PV.Props.C11
+import PV.Props.C12
+import PV.Props.C13
+import PV.Props.C14
+import PV.Props.C15
+import PV.Props.C16
+import PV.Props.C17
 import PV.Props.C18
+import PV.Proofs.Cfg
+import PV.Proofs.AllocSound
+import PV.Proofs.Leaf
+import PV.Proofs.StripTy
+import PV.Findings.C16
